@@ -7,7 +7,8 @@ import PycsepVerif.Model.PairedPub
   c08_w   x m                            -> "count t2 mn4 se24 z"           (exact wStats; z = Float wZ of them)
   c08_pubt baseA fA daysA baseB fB daysB ev scale tcrit -> "ig t lower upper var nA nB"   (pairedTPub; ev = flat bin indices)
   c08_pubb baseA fA daysA baseB fB daysB ev scale tcrit -> "ig t lower upper var n_active active-list" (binaryTPub)
-  c08_pubw LA LB n1 n2 n                 -> "count t2 mn4 se24 z"           (wStatsPub on the float logs, rationals) -/
+  c08_pubw LA LB n1 n2 n                 -> "count t2 mn4 se24 z"           (wStatsPub on the float logs, rationals)
+  c08_midx edges cells mags              -> flat bin index of every event, `none` if below the first edge (flatIdx) -/
 namespace Drive.C08
 open Proto PairedTests
 
@@ -60,5 +61,10 @@ def handle : List String → Option String
           let z : Float := wZ (Float.ofNat s.t2 / 2.0) (Float.ofNat s.mn4 / 4.0) (ratToFloat s.se24)
           s!"{s.count} {s.t2} {s.mn4} {showRat s.se24} {showFloat z}"
       | _, _, _, _, _ => "bad-op")
+  | ["c08_midx", es, cs, ms] => some (
+      match parseList? parseRat? es, parseList? String.toNat? cs, parseList? parseRat? ms with
+      | some es, some cs, some ms =>
+          showList (fun (p : Nat × Rat) => showOpt toString (flatIdx es p.1 p.2)) (cs.zip ms)
+      | _, _, _ => "bad-op")
   | _ => none
 end Drive.C08
